@@ -1,0 +1,194 @@
+//go:build verif
+
+// Contracts for BufferedPaginatedStore, checked by /verif (govc). Comment-only: this file adds no code.
+// The store is verified on its own abstraction (PView: index -> weight = page line + occurrences in the buffer); it
+// is not yet part of the Store interface invariant SInv, so sketch-level contracts do not cover sketches built on it.
+
+package store
+
+// page p (absolute page index) exists and is allocated
+//@ pred PHas(s *BufferedPaginatedStore, p int) := s.minPageIndex <= p && p < s.minPageIndex + len(s.pages) && len(s.pages[p - s.minPageIndex]) > 0
+// weight held on line l of page p (0 when the page does not exist), number of buffered unit entries equal to k
+//@ vfun PPage(s *BufferedPaginatedStore, k int) real := PHas(s, k >> 5) ? s.pages[(k >> 5) - s.minPageIndex][k & 31] : 0.0
+//@ fun POcc(s *BufferedPaginatedStore, k int) int := OccI(contents(s.buffer), 0, len(s.buffer), k)
+//@ fun PView(s *BufferedPaginatedStore, k int) real := PPage(s, k) + real(POcc(s, k))
+
+// Invariant: fixed page geometry (32 lines), pages are empty or full-length, distinct pages own distinct arrays, page
+// indexes stay within what 32-bit bin indexes need, weights are non-negative, buffered indexes fit 32 bits.
+//@ pred PGeom(s *BufferedPaginatedStore) := s.pageLenLog2 == 5 && s.pageLenMask == 31 && s.bufferCompactionTriggerLen >= 0 && len(s.pages) <= 268435456
+//@ pred PPagesOK(s *BufferedPaginatedStore) := (forall i int :: 0 <= i && i < len(s.pages) ==> (len(s.pages[i]) == 0 || len(s.pages[i]) == 32)) && (forall i int, j int :: 0 <= i && i < j && j < len(s.pages) && len(s.pages[i]) > 0 && len(s.pages[j]) > 0 ==> arr(s.pages[i]) != arr(s.pages[j]))
+//@ pred PUnused(s *BufferedPaginatedStore) := s.minPageIndex == 9223372036854775807 ==> (forall i int :: 0 <= i && i < len(s.pages) ==> len(s.pages[i]) == 0)
+//@ pred PRange(s *BufferedPaginatedStore) := s.minPageIndex != 9223372036854775807 ==> 0 - 134217728 <= s.minPageIndex && s.minPageIndex + len(s.pages) <= 134217728 && len(s.pages) > 0
+//@ pred PNonneg(s *BufferedPaginatedStore) := (forall i int, j int :: 0 <= i && i < len(s.pages) && 0 <= j && j < len(s.pages[i]) ==> s.pages[i][j] >= 0.0) && (forall i int :: 0 <= i && i < len(s.buffer) ==> in32(s.buffer[i]))
+//@ pred PAlloc(s *BufferedPaginatedStore) := (arr(s.buffer) == 0 || allocated(arr(s.buffer))) && (arr(s.pages) == 0 || allocated(arr(s.pages))) && (forall i int :: 0 <= i && i < len(s.pages) ==> arr(s.pages[i]) == 0 || allocated(arr(s.pages[i])))
+//@ pred PInv(s *BufferedPaginatedStore) := s != nil && PGeom(s) && PPagesOK(s) && PUnused(s) && PRange(s) && PNonneg(s) && PAlloc(s)
+
+//@ func NewBufferedPaginatedStore
+//@   serves C04 C15
+//@   uses OccEmpty
+//@   ensures result != nil && fresh(result) && PInv(result) && len(result.buffer) == 0 && len(result.pages) == 0 && result.minPageIndex == 9223372036854775807
+//@   ensures empty: forall k int :: PView(result, k) == 0.0
+
+//@ func BufferedPaginatedStore.pageIndex
+//@   serves C04
+//@   requires s.pageLenLog2 == 5 && in32(index)
+//@   ensures result == index >> 5 && 0 - 67108864 <= result && result < 67108864
+
+//@ func BufferedPaginatedStore.lineIndex
+//@   serves C04
+//@   requires s.pageLenMask == 31
+//@   ensures result == index & 31 && 0 <= result && result < 32
+
+//@ func BufferedPaginatedStore.index
+//@   serves C04
+//@   requires s.pageLenLog2 == 5 && 0 - 134217728 <= pageIndex && pageIndex <= 134217728 && 0 <= lineIndex && lineIndex < 32
+//@   ensures result == pageIndex * 32 + lineIndex && result >> 5 == pageIndex && result & 31 == lineIndex
+
+//@ func BufferedPaginatedStore.newPagesLen
+//@   serves C04
+//@   requires 0 <= required && required <= 268435456
+//@   ensures result >= required && result < required + 8 && result - (result & 7) == result
+
+//@ footprint BufferedPaginatedStore(s) := s, arr(s.buffer), arr(s.pages), forall i int :: 0 <= i && i < len(s.pages) ==> arr(s.pages[i])
+
+// what every operation keeps of the buffer when it does not touch it
+//@ pred PBufSame(s *BufferedPaginatedStore) := arr(s.buffer) == old(arr(s.buffer)) && len(s.buffer) == old(len(s.buffer)) && cap(s.buffer) == old(cap(s.buffer)) && (forall j int :: 0 <= j && j < len(s.buffer) ==> s.buffer[j] == old(s.buffer[j])) && s.bufferCompactionTriggerLen == old(s.bufferCompactionTriggerLen)
+
+// page(p, ensure): the page table may grow (in either direction) and the page may be allocated, but no weight moves:
+// every line of every page keeps its value, the buffer is untouched; with ensure the page exists afterwards and the
+// returned slice IS its line storage (writes through it are writes to the store).
+//@ func BufferedPaginatedStore.page
+//@   serves C04
+//@   trusted page-table growth (append/copy over a slice of slices, element pointers) is not yet within the verified subset; contract assumed
+//@   requires PInv(s) && 0 - 67108864 <= pageIndex && pageIndex < 67108864
+//@   ensures PInv(s) && PBufSame(s) && footprintStable(s)
+//@   ensures lines: forall k int :: PPage(s, k) == old(PPage(s, k))
+//@   ensures kept: forall p int :: old(PHas(s, p)) ==> PHas(s, p)
+//@   ensures exists: ensureExists ==> PHas(s, pageIndex)
+//@   ensures same: !ensureExists ==> (PHas(s, pageIndex) <==> old(PHas(s, pageIndex)))
+//@   ensures alias: PHas(s, pageIndex) ==> arr(result) == arr(s.pages[pageIndex - s.minPageIndex]) && len(result) == 32 && off(result) == 0
+//@   ensures none: !PHas(s, pageIndex) ==> len(result) == 0
+//@   modifies s, arr(s.pages), forall i int :: 0 <= i && i < len(s.pages) ==> arr(s.pages[i])
+
+// compact moves buffered unit entries into pages: the content (PView) does not change.
+//@ func BufferedPaginatedStore.compact
+//@   serves C04 C14
+//@   trusted sort + segment moves between buffer and pages; contract assumed (content-preserving), see DESIGN
+//@   requires PInv(s)
+//@   ensures PInv(s) && footprintStable(s)
+//@   ensures view: forall k int :: PView(s, k) == old(PView(s, k))
+//@   ensures len(s.buffer) <= old(len(s.buffer)) && cap(s.buffer) == old(cap(s.buffer)) && arr(s.buffer) == old(arr(s.buffer))
+//@   modifies footprint(s)
+
+//@ func BufferedPaginatedStore.sortBuffer
+//@   serves C04 C14
+//@   requires PInv(s)
+//@   ensures PInv(s) && footprintStable(s) && arr(s.buffer) == old(arr(s.buffer)) && len(s.buffer) == old(len(s.buffer)) && cap(s.buffer) == old(cap(s.buffer))
+//@   ensures sorted: forall i int, j int :: 0 <= i && i <= j && j < len(s.buffer) ==> s.buffer[i] <= s.buffer[j]
+//@   ensures view: forall k int :: PView(s, k) == old(PView(s, k))
+//@   modifies arr(s.buffer)
+
+//@ func BufferedPaginatedStore.Add
+//@   serves C04 C01
+//@   uses OccAppendV
+//@   requires PInv(s) && in32(index)
+//@   ensures PInv(s) && footprintStable(s)
+//@   ensures view: forall k int :: PView(s, k) == old(PView(s, k)) + (k == index ? 1.0 : 0.0)
+//@   modifies footprint(s)
+
+//@ func BufferedPaginatedStore.AddWithCount
+//@   serves C04 C01 C02
+//@   requires PInv(s) && in32(index) && count >= 0.0
+//@   ensures PInv(s) && footprintStable(s)
+//@   ensures lines: count != 1.0 ==> (forall k int :: PPage(s, k) == old(PPage(s, k)) + (k == index ? count : 0.0))
+//@   ensures occ: count != 1.0 ==> (forall k int :: POcc(s, k) == old(POcc(s, k))) && contents(s.buffer) == old(contents(s.buffer)) && arr(s.buffer) == old(arr(s.buffer)) && len(s.buffer) == old(len(s.buffer))
+//@   ensures view: forall k int :: PView(s, k) == old(PView(s, k)) + (k == index ? count : 0.0)
+//@   modifies footprint(s)
+
+//@ func BufferedPaginatedStore.AddBin
+//@   serves C04
+//@   requires PInv(s) && in32(bin.index) && bin.count >= 0.0
+//@   ensures PInv(s) && footprintStable(s)
+//@   ensures view: forall k int :: PView(s, k) == old(PView(s, k)) + (k == bin.index ? bin.count : 0.0)
+//@   modifies footprint(s)
+
+// pattern-triggered step of the occurrence count (no instance creates a new OccI term)
+//@ lemma OccStepV(a array_int, lo int, hi int, m int, v int)
+//@   serves C04
+//@   requires lo <= hi && m == hi + 1
+//@   ensures OccI(a, lo, m, v) == OccI(a, lo, hi, v) + (select(a, hi) == v ? 1 : 0) using OccStep(a, lo, m, v)
+//@   pattern OccI(a, lo, m, v), OccI(a, lo, hi, v)
+
+//@ pred PEmptyState(s *BufferedPaginatedStore) := len(s.buffer) == 0 && s.minPageIndex == 9223372036854775807 && (forall i int :: 0 <= i && i < len(s.pages) ==> len(s.pages[i]) == 0)
+
+// Clear: the state of a new store except for retained capacity (buffer array, page table and page arrays are kept,
+// all with length 0): no weight, no page in use.
+//@ func BufferedPaginatedStore.Clear
+//@   serves C04 C15
+//@   uses OccZeroLen
+//@   requires PInv(s)
+//@   ensures PInv(s) && PEmptyState(s) && footprintStable(s) && len(s.pages) == old(len(s.pages))
+//@   ensures view: forall k int :: PView(s, k) == 0.0
+//@   modifies s, arr(s.pages)
+//@   loop 1 invariant 0 <= $i1 && $i1 <= len(s.pages) && len(s.pages) == old(len(s.pages)) && arr(s.pages) == old(arr(s.pages)) && len(s.buffer) == 0 && PGeom(s)
+//@   loop 1 invariant forall i int :: 0 <= i && i < $i1 ==> len(s.pages[i]) == 0
+//@   loop 1 invariant forall i int :: $i1 <= i && i < len(s.pages) ==> len(s.pages[i]) == old(len(s.pages[i])) && arr(s.pages[i]) == old(arr(s.pages[i]))
+//@   loop 1 invariant forall i int :: 0 <= i && i < len(s.pages) ==> arr(s.pages[i]) == old(arr(s.pages[i]))
+
+//@ func BufferedPaginatedStore.IsEmpty
+//@   serves C04 C12
+//@   requires PInv(s)
+//@   ensures buffered: len(s.buffer) > 0 ==> !result
+//@   ensures none: result ==> len(s.buffer) == 0 && (forall i int, j int :: 0 <= i && i < len(s.pages) && 0 <= j && j < len(s.pages[i]) ==> s.pages[i][j] == 0.0)
+//@   ensures some: !result && len(s.buffer) == 0 ==> (exists i int, j int :: 0 <= i && i < len(s.pages) && 0 <= j && j < len(s.pages[i]) && s.pages[i][j] > 0.0)
+//@   loop 1 invariant 0 <= $i1 && $i1 <= len(s.pages) && (forall i int, j int :: 0 <= i && i < $i1 && 0 <= j && j < len(s.pages[i]) ==> s.pages[i][j] == 0.0)
+//@   loop 2 invariant 0 <= $i2 && $i2 <= len(page) && (forall j int :: 0 <= j && j < $i2 ==> page[j] == 0.0)
+
+// TotalCount: number of buffered unit entries plus the sum of all page lines.
+//@ fun PRows(s *BufferedPaginatedStore) array_real := lambda i int :: ASum(contents(s.pages[i]), 0, len(s.pages[i]))
+//@ fun PTot(s *BufferedPaginatedStore) real := real(len(s.buffer)) + ASum(PRows(s), 0, len(s.pages))
+//@ func BufferedPaginatedStore.TotalCount
+//@   serves C04 C12
+//@   requires PInv(s)
+//@   ensures result == PTot(s)
+//@   loop 1 invariant 0 <= $i1 && $i1 <= len(s.pages) && totalCount == real(len(s.buffer)) + ASum(PRows(s), 0, $i1)
+//@   loop 2 invariant 0 <= $i2 && $i2 <= len(page) && totalCount == real(len(s.buffer)) + ASum(PRows(s), 0, $i1) + ASum(contents(page), 0, $i2)
+//@   hint ASumEmpty(PRows(s), 0, 0), ASumStep(PRows(s), 0, $i1), ASumStep(PRows(s), 0, $i1 + 1), ASumEmpty(contents(page), 0, 0), ASumStep(contents(page), 0, $i2)
+
+// Copy: a store of the same content that shares no storage with the original (every array of the copy is new).
+//@ func BufferedPaginatedStore.Copy
+//@   serves C04 C14
+//@   uses OccCopyV
+//@   requires PInv(s)
+//@   ensures result != nil && fresh(result) && is(result, *BufferedPaginatedStore) && footprintFresh(as(result, *BufferedPaginatedStore)) && PInv(as(result, *BufferedPaginatedStore))
+//@   ensures view: forall k int :: PPage(as(result, *BufferedPaginatedStore), k) == PPage(s, k) && POcc(as(result, *BufferedPaginatedStore), k) == POcc(s, k)
+//@   ensures conf: as(result, *BufferedPaginatedStore).minPageIndex == s.minPageIndex && len(as(result, *BufferedPaginatedStore).pages) == len(s.pages) && len(as(result, *BufferedPaginatedStore).buffer) == len(s.buffer) && as(result, *BufferedPaginatedStore).bufferCompactionTriggerLen == s.bufferCompactionTriggerLen
+//@   loop 1 invariant 0 <= $i1 && $i1 <= len(s.pages) && len(pagesCopy) == len(s.pages) && fresh(arr(pagesCopy)) && fresh(arr(bufferCopy)) && len(bufferCopy) == len(s.buffer)
+//@   loop 1 invariant forall j int :: 0 <= j && j < len(s.buffer) ==> bufferCopy[j] == s.buffer[j]
+//@   loop 1 invariant forall i int :: 0 <= i && i < $i1 ==> len(pagesCopy[i]) == len(s.pages[i]) && (len(s.pages[i]) > 0 ==> fresh(arr(pagesCopy[i])) && (forall j int :: 0 <= j && j < 32 ==> pagesCopy[i][j] == s.pages[i][j]))
+//@   loop 1 invariant forall i int :: $i1 <= i && i < len(s.pages) ==> len(pagesCopy[i]) == 0
+//@   loop 1 invariant forall i int :: 0 <= i && i < len(s.pages) ==> arr(pagesCopy[i]) == 0 || (allocated(arr(pagesCopy[i])) && fresh(arr(pagesCopy[i])))
+//@   loop 1 invariant forall i int, j int :: 0 <= i && i < j && j < $i1 && len(pagesCopy[i]) > 0 && len(pagesCopy[j]) > 0 ==> arr(pagesCopy[i]) != arr(pagesCopy[j])
+
+// Reweight(w): refused for w <= 0; otherwise every weight - page lines and buffered unit entries alike - is
+// multiplied by w (for w != 1 the buffered entries are moved to pages with weight w each).
+//@ func BufferedPaginatedStore.Reweight
+//@   serves C04 C16 C13
+//@   uses OccStepV OccZeroLen
+//@   requires PInv(s) && finite(w)
+//@   ensures refuse: w <= 0.0 ==> result != nil && (forall k int :: PPage(s, k) == old(PPage(s, k)) && POcc(s, k) == old(POcc(s, k)))
+//@   ensures ok: w > 0.0 ==> result == nil && PInv(s)
+//@   ensures view: w > 0.0 ==> (forall k int :: PView(s, k) == old(PView(s, k)) * w)
+//@   ensures stable: footprintStable(s)
+//@   modifies footprint(s)
+//@   ghost buf0 array_int := contents(s.buffer)
+//@   ghost n0 int := len(s.buffer)
+//@   loop 1 invariant 0 <= $i1 && $i1 <= len(s.pages) && PInv(s) && len(s.buffer) == 0 && arr(s.buffer) == old(arr(s.buffer)) && contents(s.buffer) == buf0 && s.minPageIndex == old(s.minPageIndex) && len(s.pages) == old(len(s.pages)) && arr(s.pages) == old(arr(s.pages)) && footprintStable(s)
+//@   loop 1 invariant forall i int :: 0 <= i && i < len(s.pages) ==> len(s.pages[i]) == old(len(s.pages[i])) && arr(s.pages[i]) == old(arr(s.pages[i]))
+//@   loop 1 invariant forall i int, j int :: 0 <= i && i < $i1 && 0 <= j && j < len(s.pages[i]) ==> s.pages[i][j] == old(s.pages[i][j]) * w
+//@   loop 1 invariant forall i int, j int :: $i1 <= i && i < len(s.pages) && 0 <= j && j < len(s.pages[i]) ==> s.pages[i][j] == old(s.pages[i][j])
+//@   loop 2 invariant 0 <= $i2 && $i2 <= len(p) && len(p) == old(len(s.pages[$i1])) && PGeom(s) && PPagesOK(s) && PUnused(s) && PRange(s) && PAlloc(s) && len(s.buffer) == 0 && arr(s.buffer) == old(arr(s.buffer)) && contents(s.buffer) == buf0 && s.minPageIndex == old(s.minPageIndex) && len(s.pages) == old(len(s.pages)) && arr(s.pages) == old(arr(s.pages))
+//@   loop 2 invariant forall i int :: 0 <= i && i < len(s.pages) ==> len(s.pages[i]) == old(len(s.pages[i])) && arr(s.pages[i]) == old(arr(s.pages[i]))
+//@   loop 2 invariant forall i int, j int :: 0 <= i && i < len(s.pages) && 0 <= j && j < len(s.pages[i]) ==> s.pages[i][j] == old(s.pages[i][j]) * ((i < $i1 || (i == $i1 && j < $i2)) ? w : 1.0)
+//@   loop 3 invariant 0 <= $i3 && $i3 <= n0 && len(buffer) == n0 && arr(buffer) == old(arr(s.buffer)) && PInv(s) && len(s.buffer) == 0 && contents(s.buffer) == buf0 && arr(s.buffer) == old(arr(s.buffer)) && footprintStable(s)
+//@   loop 3 invariant forall k int :: PPage(s, k) == old(PPage(s, k)) * w + w * real(OccI(buf0, 0, $i3, k))
